@@ -14,7 +14,7 @@ func init() {
 	register(&Property{
 		ID:      "C20",
 		NeedGen: true,
-		Runtime: RuntimeCore,
+		Runtime: append(append([]string{}, RuntimeCore...), "./plugin/federation"),
 		Run:     runC20,
 		Explanation: "Index provenance and containment of federation entity resolution in every materialised federation executor: (index-provenance) every store into the _entities result list is indexed by the `index` field of an " +
 			"EntityWithIndex (rep.index, or reps[i].index with i ranging over the batch resolver's result), the single-entity store happens only on the err == nil edge of that representation's own resolveEntity call, " +
@@ -238,6 +238,7 @@ func runC20(c *Ctx) {
 
 	c20RequiresOwnRepresentation(c, feds)
 	c20BatchPositional(c, feds)
+	c20Small(c, feds)
 
 	c.R.Rule("joined", "the goroutines of __resolve_entities and resolveEntityGroup are accounted by their WaitGroups (same analysis as C05/wg-accounting)", 2*len(feds))
 	for _, g := range feds {
